@@ -322,65 +322,7 @@ func checkC05(c *Ctx, r *Report) {
 
 	// ---- C05-order
 	r.Rule("C05-order", 2, "precedence sort is stable and follows the size sort")
-	{
-		nPrec, bad := 0, ""
-		for _, fn := range c.moduleFuncs() {
-			eachInstr(fn, func(_ *ssa.BasicBlock, _ int, instr ssa.Instruction) {
-				mi, ok := instr.(*ssa.MakeInterface)
-				if !ok {
-					return
-				}
-				n := namedOf(mi.X.Type())
-				if n == nil || n.Obj().Name() != "byPrecedence" || n.Obj().Pkg().Path() != modPath+"/fbb" {
-					return
-				}
-				for _, ref := range *mi.Referrers() {
-					nPrec++
-					ci, isCall := ref.(ssa.CallInstruction)
-					if !isCall || callName(ci.Common()) != "sort.Stable" {
-						bad = c.pos(ref.Pos())
-					}
-				}
-			})
-		}
-		o := r.Add("C05-order", "fbb", "byPrecedence only passed to sort.Stable", "fbb/wl2k.go")
-		switch {
-		case nPrec == 0:
-			o.Bad("byPrecedence is never sorted (anchor unresolved): proposals are not ordered by precedence")
-		case bad != "":
-			o.Bad("byPrecedence is used with something other than sort.Stable at %s: an unstable sort destroys the size order within a precedence", bad)
-		default:
-			o.OK("%d use(s), all sort.Stable", nPrec)
-		}
-		if fn := c.Func("fbb", "sortProposals"); fn == nil {
-			r.Fail("C05-order", "anchor fbb.sortProposals not found")
-		} else {
-			o := r.Add("C05-order", fnName(fn), "size sort precedes precedence sort", c.pos(fn.Pos()))
-			var sizeSort, precSort ssa.CallInstruction
-			for _, ci := range callsTo(fn, false, "sort.Sort", "sort.Stable") {
-				if mi, ok := ci.Common().Args[0].(*ssa.MakeInterface); ok {
-					switch namedOf(mi.X.Type()).Obj().Name() {
-					case "bySize":
-						sizeSort = ci
-					case "byPrecedence":
-						precSort = ci
-					}
-				}
-			}
-			if sizeSort != nil && precSort != nil && instrDominates(sizeSort, precSort) {
-				o.OK("sort by size at %s dominates the stable sort by precedence at %s", c.pos(sizeSort.Pos()), c.pos(precSort.Pos()))
-			} else {
-				o.Bad("the size sort does not precede the precedence sort on every path (size sort found: %v, precedence sort found: %v)", sizeSort != nil, precSort != nil)
-			}
-			// and outbound() sorts what it returns
-			if ob := c.Func("fbb", "(*Session).outbound"); ob != nil {
-				calls := callsTo(ob, false, "fbb.sortProposals")
-				ok := len(calls) > 0
-				r.Check("C05-order", fnName(ob), "outbound proposals are sorted", c.pos(ob.Pos()), ok,
-					"outbound() calls sortProposals on the proposals it returns", "outbound() no longer sorts the proposals")
-			}
-		}
-	}
+	h1OrderRule(c, r, "C05-order")
 
 	// ---- C05-frame
 	r.Rule("C05-frame", 4, "frame markers agree between sender and receiver")
